@@ -48,8 +48,77 @@ func closesOfField(fn *ssa.Function, fr FieldRef) []*ssa.Call {
 	return out
 }
 
-// recvFromFieldDominates: `in` is dominated by a completed receive from the channel in field fr.
+// recvFromFieldDominates: every path to `in` passes a completed receive from the channel in field fr
+// (a select case on it, or a plain receive).
 func recvFromFieldDominates(in ssa.Instruction, fr FieldRef) bool {
+	if recvFromFieldDominates1(in, fr) {
+		return true
+	}
+	fn := in.Parent()
+	cuts := map[ssa.Instruction]bool{}
+	cutEdges := map[[2]*ssa.BasicBlock]bool{}
+	allInstrs(fn, func(x ssa.Instruction) {
+		switch y := x.(type) {
+		case *ssa.UnOp:
+			if y.Op == token.ARROW {
+				if f2, _, ok := loadedField(y.X); ok && f2 == fr {
+					cuts[x] = true
+				}
+			}
+		case *ssa.If:
+			// if (extract #0 of select) == k, with state k receiving from fr: the true edge means "received"
+			b, ok := y.Cond.(*ssa.BinOp)
+			if !ok || b.Op != token.EQL {
+				return
+			}
+			ex, isEx := b.X.(*ssa.Extract)
+			k, isK := constInt(b.Y)
+			if !isEx || !isK || ex.Index != 0 {
+				return
+			}
+			sel, isSel := ex.Tuple.(*ssa.Select)
+			if !isSel || int(k) >= len(sel.States) || sel.States[k].Dir != types.RecvOnly {
+				return
+			}
+			if f2, _, ok := loadedField(sel.States[k].Chan); ok && f2 == fr {
+				cutEdges[[2]*ssa.BasicBlock{y.Block(), y.Block().Succs[0]}] = true
+			}
+		}
+	})
+	if len(cuts) == 0 && len(cutEdges) == 0 {
+		return false
+	}
+	// is `in` reachable from entry without crossing a receive?
+	seen := map[*ssa.BasicBlock]bool{fn.Blocks[0]: true}
+	work := []*ssa.BasicBlock{fn.Blocks[0]}
+	for len(work) > 0 {
+		b := work[len(work)-1]
+		work = work[:len(work)-1]
+		stopped := false
+		for _, x := range b.Instrs {
+			if cuts[x] {
+				stopped = true
+				break
+			}
+			if x == in {
+				return false
+			}
+		}
+		if stopped {
+			continue
+		}
+		for _, sc := range b.Succs {
+			if cutEdges[[2]*ssa.BasicBlock{b, sc}] || seen[sc] {
+				continue
+			}
+			seen[sc] = true
+			work = append(work, sc)
+		}
+	}
+	return true
+}
+
+func recvFromFieldDominates1(in ssa.Instruction, fr FieldRef) bool {
 	// (a) select case index fact
 	for _, f := range factsAt(in) {
 		x, op, y, ok := cmpFact(f)
